@@ -64,19 +64,68 @@ func decodeCol(t datatype.DataType, b []byte, v primitive.ProtocolVersion) (inte
 type c10row map[string]interface{}
 
 // readTable runs a SELECT and decodes the result: column names in order and the rows.
+//
+// How the statement travels is the run's choice (c10Mode): as a QUERY, as PREPARE + EXECUTE, or as
+// PREPARE + EXECUTE with the SKIP_METADATA flag - then the rows come without column
+// specifications and are read with the columns the PREPARED result announced, as a driver does.
 func c10select(w *world.World, cl *world.Client, text string) ([]string, []c10row, string) {
-	r := cl.Send("system", "", world.QueryMsg(text, primitive.ConsistencyLevelOne), nil)
-	if !w.RunUntil(func() bool { return len(r.Replies) > 0 }, time.Minute) {
-		return nil, nil, "no reply to " + text
+	mode := 0
+	if c10Mode != nil {
+		mode = c10Mode()
 	}
-	return c10decode(cl, r, text)
+	if mode == 0 {
+		r := cl.Send("system", "", world.QueryMsg(text, primitive.ConsistencyLevelOne), nil)
+		if !w.RunUntil(func() bool { return len(r.Replies) > 0 }, time.Minute) {
+			return nil, nil, "no reply to " + text
+		}
+		return c10decode(cl, r, text)
+	}
+	p := cl.Send("prepare", "", &message.Prepare{Query: text}, nil)
+	if !w.RunUntil(func() bool { return len(p.Replies) > 0 }, time.Minute) {
+		return nil, nil, "no reply to PREPARE of " + text
+	}
+	pr, ok := replyMsg(p).(*message.PreparedResult)
+	if !ok {
+		return nil, nil, fmt.Sprintf("PREPARE of %s answered with %v", text, replyMsg(p))
+	}
+	ex := &message.Execute{QueryId: pr.PreparedQueryId, Options: &message.QueryOptions{Consistency: primitive.ConsistencyLevelOne, SkipMetadata: mode == 2}}
+	if cl.Version.SupportsResultMetadataId() {
+		ex.ResultMetadataId = pr.ResultMetadataId
+	}
+	r := cl.Send("system", "", ex, nil)
+	if !w.RunUntil(func() bool { return len(r.Replies) > 0 }, time.Minute) {
+		return nil, nil, "no reply to EXECUTE of " + text
+	}
+	what := "EXECUTE of " + text
+	if mode == 2 {
+		what += " (SKIP_METADATA)"
+	}
+	var announced []*message.ColumnMetadata
+	if pr.ResultMetadata != nil {
+		announced = pr.ResultMetadata.Columns
+	}
+	return c10decodeWith(cl, r, what, announced)
 }
+
+// c10Mode is set by the scenario at the start of every run.
+var c10Mode func() int
 
 // c10decode decodes the answer to a SELECT that has been replied to.
 func c10decode(cl *world.Client, r *world.ClientReq, text string) ([]string, []c10row, string) {
+	return c10decodeWith(cl, r, text, nil)
+}
+
+// c10decodeWith: announced are the columns of the PREPARED result, used when the rows carry none.
+func c10decodeWith(cl *world.Client, r *world.ClientReq, text string, announced []*message.ColumnMetadata) ([]string, []c10row, string) {
 	rr, ok := replyMsg(r).(*message.RowsResult)
 	if !ok {
 		return nil, nil, fmt.Sprintf("%s answered with %v", text, replyMsg(r))
+	}
+	if len(rr.Metadata.Columns) == 0 && rr.Metadata.ColumnCount > 0 && announced != nil {
+		cp := *rr.Metadata
+		cp.Columns = announced
+		rr = &message.RowsResult{Metadata: &cp, Data: rr.Data}
+		text += " [rows without column specifications, read with the PREPARED result's]"
 	}
 	var names []string
 	for _, c := range rr.Metadata.Columns {
@@ -107,6 +156,7 @@ func ip16(ip net.IP) []byte { return ip.To16() }
 
 // C10 — virtual system.local / system.peers present a correct, mutually consistent ring.
 func c10(e *Env) {
+	c10Mode = func() int { return e.C.Choose("c10transport", 4) % 3 } // query twice as often as each prepared form
 	c := e.C
 	cfg := swarmWorld(e)
 	cfg.WClock = 0
